@@ -305,6 +305,26 @@ def run_history(res, exe, rng, first):
                 v2, _ = S.sdo_read(sim, nid, 0x1006, 0)
                 if v2 != m.cycle:
                     fail("readback/1006", "1006h reads %r, reference %d" % (v2, m.cycle)); return
+            elif x < 0.745 and m.mode == OP:
+                # a long run of SYNCs (more than 256 without restart): the n-th-SYNC schedule of the synchronous TPDO does not drift
+                n = rng.choice([260, 300, 520])
+                script.append("%d SYNCs in a row" % n)
+                outs = sim.batch(["rx %x 0 -" % m.sid()] * n)
+                for j, evs in enumerate(outs):
+                    cons += 1
+                    m.tsync += 1
+                    want_tx = []
+                    if m.tsync == ttype:
+                        m.tsync = 0
+                        want_tx = [(0x180 + nid, bytes([0x42]))]
+                    if m.rpdo_pending is not None:
+                        rpdo_val = m.rpdo_pending
+                        m.rpdo_pending = None
+                    got = [(c, d) for (t, c, dlc, d, f) in S.txs(evs)]
+                    if got != want_tx:
+                        fail("consume/tpdo-long-run", "SYNC no. %d of a run of %d: transmitted %r, reference %r (synchronous TPDO type %d)" % (
+                            j + 1, n, [("%x" % c, d.hex()) for c, d in got], [("%x" % c, d.hex()) for c, d in want_tx], ttype)); return
+                res.counters["long_sync_runs"] += 1
             elif x < 0.88:
                 # received frame: SYNC or near miss; a fresh RPDO first in half of the cases
                 if rng.random() < 0.5 and m.mode == OP:
